@@ -202,8 +202,45 @@ Jobs_C17 ==
    \o Cat({ProgJobs("mul_div_n", <<a, Z0, Z0>>, n) : a \in LawLm2, n \in LawNs})
    \o Cat({ProgJobs("mul_n_sum", <<a, Z0, Z0>>, n) : a \in LawLm2 \cup {Maxv // k : k \in SumNs}, n \in SumNs})
 
+(* ---- C07: every entry point, finite and NaN operands, to be run in the sanitizer configurations ------------------ *)
+Lm07 == PM({Z0, Z1, ZN(65535), ZN(65536), ZN(98304), HalfPhi, Phi, ZN(39322), P(31), P(32), P(37), P(46) -- Z1, P(46), DomLim -- Z1, DomLim, P(48) -- Z1, P(48), P(55),
+            P(62), P(62) ++ P(61), Maxv -- ZN(65536), Maxv -- ZN(65535), Maxv -- Z1, Maxv, NaNv})
+Un07 == {"neg", "abs", "isnan", "floor", "ceil", "sqrt", "sqrt_abacus", "sqrt_std", "sin", "cos", "tan", "atan", "asin", "acos", "atan_index_aprox", "sqrt_aprox",
+         "atan_aprox", "sin_angle", "cos_angle", "tan_angle", "f2d", "f2f", "rt_d"}
+Bin07 == {"add", "sub", "mul", "div", "and", "cmp", "atan2", "hypot", "hypot_aprox"}
+Fx07 == {x \in Lm07 : ZAbs(x) \in {Z0, Z1, ZN(98304), P(32), P(48), P(62), Maxv, NaNv}}
+Jobs_C07 ==
+   S2Q({Call(op, <<"fx">>, <<x>>) : op \in Un07, x \in Lm07})
+   \o S2Q({CallVia("f2i", <<"fx">>, <<x>>, "f2i", IntTagsG[i]) : x \in Lm07, i \in 1..NT})
+   \o S2Q({Call(op, <<"fx", "fx">>, <<x, y>>) : op \in Bin07, x \in Lm07, y \in Lm07})
+   \o S2Q({CallAsg(op, <<"fx", "fx">>, <<x, y>>) : op \in Ops4, x \in Fx07, y \in Fx07})
+   \o S2Q({CallR(op, x, r) : op \in {"shl", "shr"}, x \in Fx07 \cup {Maxv -- Z1, ZN(-3)}, r \in ShiftCounts})
+   \o FlatSeq([i \in 1..NT |-> LET tg == IntTagsG[i] IN
+         S2Q({CallM(op, <<"fx", tg>>, <<Enc(x), Enc(n)>>, asg) : op \in Ops4, x \in Fx07, n \in IntLm(tg), asg \in {0, 1}})
+         \o S2Q({CallM(op, <<tg, "fx">>, <<Enc(n), Enc(x)>>, 0) : op \in Ops4, x \in Fx07, n \in IntLm(tg)})
+         \o S2Q({CallVia("i2f", <<tg>>, <<n>>, via, "fx") : n \in IntLm(tg), via \in {"ctor", "i2f"}})
+         \o S2Q({Call(op, <<tg>>, <<n>>) : op \in {"a2r", "sin_angle", "cos_angle", "tan_angle"}, n \in IntLm(tg)})])
+   \o S2Q({CallM(op, <<"fx", "f32">>, <<Enc(x), ZToLimbs(f, 4)>>, 0) : op \in Ops4, x \in Fx07, f \in F32Vals})
+   \o S2Q({CallM(op, <<"f64", "fx">>, <<ZToLimbs(f, 4), Enc(x)>>, 0) : op \in Ops4, x \in Fx07, f \in F64Vals})
+   \o S2Q({CallF("fl2f", "f32", B32(sg, E, M), "") : sg \in {0, 1}, E \in 0..255, M \in {Z0, P(23) -- Z1, P(22)}})
+   \o S2Q({CallF("fl2f", "f64", B64(sg, E, M), "") : sg \in {0, 1}, E \in E64, M \in {Z0, P(52) -- Z1, P(51)}})
+   \o S2Q({CallF(op, "f32", f, "") : op \in {"sin_angle", "cos_angle", "tan_angle"}, f \in F32Vals})
+   \o <<Sweep("tab_sin", "u16", Z0, ZN(360), 1), Sweep("tab_cos", "u16", Z0, ZN(360), 1), Sweep("tab_tan", "u8", Z0, ZN(255), 1),
+        [Sweep("tab_sqrt", "u8", Z0, ZN(255), 1) EXCEPT !.ot = "u16"],
+        Sweep("sin_angle_aprox", "i32", ZN(-800), ZN(800), 1), Sweep("cos_angle_aprox", "i32", ZN(-800), ZN(800), 1),
+        Sweep("sin_angle_aprox", "i32", ZN(-2147483647) -- Z1, ZN(2147483647), NR(8388593, 65521)),
+        Sweep("cos_angle_aprox", "i32", ZN(-2147483647) -- Z1, ZN(2147483647), NR(8388593, 65521))>>
+   \o S2Q({Call(op, <<"i32">>, <<d>>) : op \in {"sin_angle_aprox", "cos_angle_aprox"}, d \in I32Lm})
+   \o FlatSeq([u \in 1..Cardinality(Un07) |-> <<Rand(S2Q(Un07)[u], <<"fx">>, NR(400, 20000), Seed + u)>>])
+   \o FlatSeq([u \in 1..Cardinality(Bin07) |-> <<Rand(S2Q(Bin07)[u], <<"fx", "fx">>, NR(800, 40000), Seed + 50 + u)>>])
+   \o <<RandR("shl", <<"fx">>, NR(1000, 50000), Seed + 80), RandR("shr", <<"fx">>, NR(1000, 50000), Seed + 81),
+        Rand("fl2f", <<"f32">>, NR(2000, 100000), Seed + 82), Rand("fl2f", <<"f64">>, NR(2000, 100000), Seed + 83)>>
+   \o FlatSeq([o \in 1..4 |-> LET op == <<"add", "sub", "mul", "div">>[o] IN
+         <<Rand(op, <<"fx", "u64">>, NR(300, 10000), Seed + 90 + o), Rand(op, <<"i64", "fx">>, NR(300, 10000), Seed + 95 + o),
+           Rand(op, <<"fx", "f32">>, NR(300, 10000), Seed + 100 + o), Rand(op, <<"f64", "fx">>, NR(300, 10000), Seed + 105 + o)>>])
+
 JobsForT(p) ==
    CASE p = "C09" -> Jobs_C09 [] p = "C10" -> Jobs_C10 [] p = "C11" -> Jobs_C11 [] p = "C12" -> Jobs_C12
      [] p = "C14" -> Jobs_C14 [] p = "C19" -> Jobs_C19 [] p = "C20" -> Jobs_C20
-     [] p = "C05" -> Jobs_C05 [] p = "C16" -> Jobs_C16 [] p = "C17" -> Jobs_C17
+     [] p = "C05" -> Jobs_C05 [] p = "C16" -> Jobs_C16 [] p = "C17" -> Jobs_C17 [] p = "C07" -> Jobs_C07
 =============================================================================
